@@ -340,7 +340,8 @@ impl Token {
             let mut var = String::new();
             let mut kinds: Vec<&'static str> = vec![];
             if cx.rng.chance(1, 3) {
-                var.push_str(*cx.rng.pick(&[" ", "-", "  ", ". ", "\t", "!"]));
+                // (characters that split words, and characters that are only stripped from word edges, glued to the first word)
+                var.push_str(*cx.rng.pick(&[" ", "-", "  ", ". ", "\t", "!", "'", "\"", "#", "\u{bf}", "\u{ab}", "\u{feff}", "'\"", "$ ", "\u{201e}"]));
                 kinds.push("separator prefix");
             }
             for &c in &q {
